@@ -20,7 +20,7 @@ import json
 import os
 from collections import OrderedDict
 
-from .. import core, corpus, tok, tlc, c15lib
+from .. import core, corpus, tok, tlc, c15lib, literals, charclasses
 
 DEFECTS = ["ser-utf16-bom-per-chunk", "ser-rawtext-charref", "ser-encoder-decoder-mismatch"]
 HTML = c15lib.HTML_NS
@@ -143,6 +143,39 @@ BODY_PIECES = ["<p>%(t2)s</p>", "<p title='%(a2)s' class=%(a3)s>x</p>", "<textar
                "<select><option>%(t2)s</select>", "<table><tr><td>%(t3)s</table>", "<ul><li>%(t2)s<li>%(t3)s</ul>"]
 
 
+def content_value(rng):
+    """a Content-Type value as authors spell it: the charset parameter in any letter case (and with the non-ASCII
+    characters Python folds onto ASCII letters), blanks round '=', quoted / unquoted / empty / unterminated labels,
+    other parameters before and after it, several charset parameters, look-alike parameter names"""
+    def name():
+        r = rng.random()
+        if r < 0.25:
+            return "charset"
+        if r < 0.85:
+            return "".join(c.upper() if rng.random() < 0.5 else c for c in "charset")
+        return "charset".replace(rng.choice("hs"), rng.choice(charclasses.ASCII_CASE_ALIASES), 1)
+    def blank():
+        return rng.choice(["", "", " ", "  ", "\t", "\n", rng.choice(charclasses.PY_ONLY_SPACE)])
+    def label():
+        lb = rng.choice(["latin2", "ISO-8859-1", "x", "utf-8", "KOI8-R", "windows-1251", ""])
+        return rng.choice(["%s", "%s", '"%s"', "'%s'", '"%s', " %s "]) % lb
+    params = []
+    for _ in range(rng.choice([1, 1, 1, 2, 2, 3])):
+        if rng.random() < 0.7:
+            params.append(name() + blank() + "=" + blank() + label())
+        else:
+            params.append(rng.choice(["boundary=charset", "xcharset=y", "charsets=z", "q=0.5", "charset", "format=flowed"]))
+    media = rng.choice(["text/html", "text/html", "TEXT/HTML", "application/xhtml+xml", "", "text/html "])
+    sep = rng.choice(["; ", ";", " ; ", " "])
+    return sep.join(([media] if media or rng.random() < 0.5 else []) + params)
+
+
+def pragma_meta(rng):
+    import html
+    return rng.choice(['<meta http-equiv="Content-Type" content="%s">', '<meta content="%s" http-equiv=content-type>',
+                       '<meta http-equiv=CONTENT-TYPE content="%s" name=k>']) % html.escape(content_value(rng), quote=True)
+
+
 def pick(rng, pool, n):
     return "".join(chr(rng.choice(pool)) for _ in range(n)) if pool else ""
 
@@ -153,9 +186,9 @@ def layout_doc(rng, lab, force=None):
     cl = c15lib.classify(lab)
     early = cl["opaque"] + cl["pfail"][:40]              # allowed in front of the declaration
     late = early + cl["plain"]
-    kind = force or rng.choice(["plain", "plain", "refs", "refs", "raw", "mis", "early", "strictpos"])
+    kind = force or rng.choice(["plain", "plain", "refs", "refs", "raw", "mis", "early", "strictpos", "pragma"])
     sub = {"label": lab.label, "t1": "t", "t2": "x", "t3": "y", "a1": "v", "a2": "w", "a3": "z", "raw": "r"}
-    if kind in ("refs", "raw", "early", "mis"):
+    if kind in ("refs", "raw", "early", "mis", "pragma"):
         sub["t2"] = "a" + pick(rng, late, 3) + " b"
         sub["t3"] = pick(rng, cl["pfail"] or late, 2) + "c"
         sub["a2"] = pick(rng, late, 2) + " q"
@@ -173,6 +206,12 @@ def layout_doc(rng, lab, force=None):
             uses_mis = True
     head = [rng.choice(HEAD_PIECES) for _ in range(rng.choice([0, 1, 1, 2, 2, 3, 4]))]
     body = [rng.choice(BODY_PIECES) for _ in range(rng.choice([1, 2, 3]))]
+    if kind == "pragma":                                 # the only declaration is an existing pragma, spelled the way authors do
+        head = [p for p in head if "<meta" not in p and "%" not in p]
+        head.insert(rng.randint(0, len(head)), pragma_meta(rng).replace("%", "%%"))
+        body.insert(0, "<p>%(t2)s</p>")
+    elif rng.random() < 0.15:
+        head.append(pragma_meta(rng).replace("%", "%%"))
     if kind == "strictpos":                              # a non-ASCII character where no reference can stand
         c = chr(rng.choice(cl["pfail"] + cl["opaque"] + cl["plain"]))
         body.append(rng.choice(["<!--k%sk-->", "<p d%s=v>x</p>", "<a%s>x</a%s>", "<p>%s</p>"]).replace("%s", c))
@@ -238,6 +277,16 @@ def fixture_streams():
     return out
 
 
+_HARV = []
+
+
+def _harvested():
+    """every name-like literal of the filter's source (of the tree under test): names it special-cases are always explored"""
+    if not _HARV:
+        _HARV.extend(literals.names("html5lib/filters/inject_meta_charset.py") or ["meta"])
+    return _HARV
+
+
 def random_stream(rng):
     """adversarial token streams: several / nested / unbalanced heads, upper-case names, namespaced attributes,
     meta in every position, EmptyTag head with attributes"""
@@ -263,6 +312,11 @@ def random_stream(rng):
         lambda: tag("EmptyTag", "meta", [((None, "name"), "k"), ((None, "content"), "text/html; charset=x")]),
         lambda: tag("EmptyTag", "meta", [((None, "http-equiv"), "refresh"), ((None, "content"), "1")]),
         lambda: tag("EmptyTag", "meta", []), lambda: tag("EmptyTag", "link", [((None, "charset"), "x")]),
+        lambda: tag("EmptyTag", "meta", [((None, "http-equiv"), rng.choice(["content-type", "Content-Type"])), ((None, "content"), content_value(rng))]),
+        lambda: tag("EmptyTag", "meta", [((None, "content"), content_value(rng)), ((None, "http-equiv"), "CONTENT-TYPE")]),
+        lambda: tag("EmptyTag", "meta", [((None, "http-equiv"), "content-type"), ((None, rng.choice(_harvested())), content_value(rng))]),
+        lambda: tag("EmptyTag", "meta", [((None, rng.choice(_harvested())), rng.choice(["content-type", "x", "utf-8"])), ((None, "content"), "text/html; charset=x")]),
+        lambda: tag(rng.choice(["StartTag", "EmptyTag", "EndTag"]), rng.choice(_harvested())),
         lambda: tag("StartTag", "meta", [((None, "charset"), "x")]), lambda: tag("EmptyTag", "br"),
         lambda: {"type": "Characters", "data": "xé"}, lambda: {"type": "SpaceCharacters", "data": " \n"},
         lambda: {"type": "Comment", "data": "c"}, lambda: {"type": "Doctype", "name": "html", "publicId": None, "systemId": None},
@@ -352,8 +406,8 @@ def make_cases(ctx, texts, labs, pairs):
                 cases.append((text_doc(s), "etree", lb, bool((i + j) % 2), True, "mc-text"))
     # (b) the harness's layouts
     for x in use:
-        for k in range(6 if q else 10):
-            force = ["refs", "raw", "early", "mis", "strictpos", None][k % 6]
+        for k in range(7 if q else 12):
+            force = ["refs", "raw", "early", "mis", "strictpos", "pragma", None][k % 7]
             src, _ = layout_doc(rng, x, force)
             tb = "dom" if k % 3 == 2 else "etree"
             for omit in (False, True):
@@ -399,12 +453,15 @@ def run(ctx):
     pairs = OrderedDict()
     for x in labs:
         pairs.setdefault(x.pair, []).append(x)
-    im_runs = [("layout", "full", 3 if q else 4), ("layout", "core", 5 if q else 6), ("free", "full", 4 if q else 5)]
+    im_runs = [("layout", "full", 3 if q else 4), ("layout", "core", 5 if q else 6), ("free", "full", 4 if q else 5),
+               ("content", "core" if q else "full", 4)] + ([] if q else [("content", "core", 5)])
     er_len = 3 if q else 4
     ctx.constants = {
         "MC_InjectMeta": [dict(mode=m, alphabet=a, MaxLen=n) for m, a, n in im_runs],
         "MC_InjectMeta alphabets": "full: 14 in-head tokens (9 meta variants, title tags, text, space, comment) x 6 wrappers; core: 6 tokens; "
-                                   "free: 14 tokens incl. head start/end/empty, upper-case names, html/body, well formed or not",
+                                   "free: 14 tokens incl. head start/end/empty, upper-case names, html/body, well formed or not; "
+                                   "content: the content VALUE of one meta built from 12 pieces (text/html '; ' charset CHARSET ChArSet char+U+017F+et = blank \" ' "
+                                   "latin2 x), as pragma (core) / pragma, content-first pragma, non-carrier (full)",
         "MC_EncodeRefs": dict(MaxLen=er_len, alphabet="a 1 & # x ; < \" ' U+E9 U+20AC U+1F600 U+42F", contexts="text, attribute in \" and ', raw text, 2-chunk documents"),
         "labels": "%d labels of webencodings whose Python codec can encode (%d distinct writer/reader codec pairs); 'replacement' labels excluded"
                   % (len(labs), len(pairs)),
